@@ -385,7 +385,10 @@ namespace smt
             return at_expr->second;
         else
         { // we need to create a new variable..
-            const auto ctr = new_at_most_one(ls);
+            const auto amo = new_at_most_one(ls); // notice that this literal might be shared with other expressions..
+            const auto ctr = lit(new_var());
+            if (!new_clause({!ctr, amo}))
+                return FALSE_lit;
             ls.push_back(!ctr);
             if (!new_clause(std::move(ls)))
                 return FALSE_lit;
